@@ -1,43 +1,92 @@
 (* C02 — decode a case, run the model, encode the observable.
-   case: ( (cfg ...) ((target level) ...) )   cfg = ( (appname ...) (rootlevel (appname ...))
-                                                      ((name level additive (appname ...)) ...) )
-         the first cfg goes to init_config, every further one to handle.set_config;
+   case: ( (step ...) ((target level) ...) )
+         step = ( (appname ...) (rootlevel (appname ...)) ((name level additive (appname ...)) ...)
+                  tweak dropprobe )          (the last two may be absent = none)
+         tweak     = () | (level)         after build(): config.root_mut().set_level(level)
+         dropprobe = () | (target level)  appender 0 of this step's config logs this record through
+                                          log! from its Drop, i.e. inside the NEXT step's set_config
+         the first step goes to init_config, every further one to handle.set_config;
          after EVERY step the whole probe grid is observed.
-   result: per step ( global_max reported_max ( (logger_enabled macro_enabled (idx ...)) per probe ) )
+   result: per step ( global_max reported_max ( (logger_enabled macro_enabled (idx ...)) per probe ) drop )
            global_max = log::max_level(), reported_max = Logger::max_log_level() of that config,
            idx = appender indices reached by log!(target: T, L, ..);
+           drop = () | ((idx ...)): what the previous step's drop probe reached (indices of THIS config);
            ("err" 1) for a step (and all later ones) where SharedLogger::new would panic *)
 From L4 Require Import Common.Val Model.Routing Model.Facade Run.C01.
 Local Open Scope N_scope.
 
-Definition dec_cfg (v : vl) : option config :=
+Record stepc := { s_cfg : config; s_drop : option (str * N) }.
+
+Definition dec_tweak (cfg : config) (v : vl) : option config :=
   match v with
-  | VL [apps; root; loggers] => dec_config apps root loggers
+  | VL [] => Some cfg
+  | VL [VN l] => Some (root_set_level cfg l)
   | _ => None
   end.
 
-Definition observe (st : fstate) (prs : list (str * N)) : vl :=
+Definition dec_drop (cfg : config) (v : vl) : option (option (str * N)) :=
+  match v with
+  | VL [] => Some None
+  | VL [VS t; VN l] =>
+    (* the probe is carried by appender 0: a config without appenders has none *)
+    Some (match c_appenders cfg with [] => None | _ => Some (t, l) end)
+  | _ => None
+  end.
+
+Definition dec_step (v : vl) : option stepc :=
+  match v with
+  | VL [apps; root; loggers] =>
+    option_map (fun c => {| s_cfg := c; s_drop := None |}) (dec_config apps root loggers)
+  | VL [apps; root; loggers; tw; dp] =>
+    match dec_config apps root loggers with
+    | Some c0 =>
+      match dec_tweak c0 tw, dec_drop c0 dp with
+      | Some c, Some d => Some {| s_cfg := c; s_drop := d |}
+      | _, _ => None
+      end
+    | None => None
+    end
+  | _ => None
+  end.
+
+Definition enc_ids (l : list nat) : vl := VL (map (fun i => VN (N.of_nat i)) l).
+
+Definition observe (st : fstate) (prs : list (str * N)) (drop : vl) : vl :=
   VL [VN (facade_max st); VN (max_level (cur st));
       VL (map (fun p => VL [VB (logger_enabled st (fst p) (snd p));
                             VB (macro_enabled st (fst p) (snd p));
-                            VL (map (fun i => VN (N.of_nat i)) (macro_log st (fst p) (snd p)))]) prs)].
+                            enc_ids (macro_log st (fst p) (snd p))]) prs);
+      drop].
 
-Definition obs_opt (ost : option fstate) (prs : list (str * N)) : vl :=
-  match ost with Some st => observe st prs | None => VErr 1 end.
-
-(* the states after init and after each set_config, in order *)
-Fixpoint states (ost : option fstate) (cs : list config) : list (option fstate) :=
-  match cs with
+(* the states after each set_config, with what the previous step's drop probe reached *)
+Fixpoint steps (ost : option fstate) (prev_drop : option (str * N)) (ss : list stepc)
+         (prs : list (str * N)) : list vl :=
+  match ss with
   | [] => []
-  | c :: cs' => let ost' := step ost c in ost' :: states ost' cs'
+  | s :: ss' =>
+    match ost with
+    | None => VErr 1 :: steps None None ss' prs
+    | Some st =>
+      let dv := match prev_drop with
+                | None => Some (VL [])
+                | Some (t, l) => option_map (fun ids => VL [enc_ids ids]) (drop_probe st (s_cfg s) t l)
+                end in
+      match set_config st (s_cfg s), dv with
+      | Some st', Some d => observe st' prs d :: steps (Some st') (s_drop s) ss' prs
+      | _, _ => VErr 1 :: steps None None ss' prs
+      end
+    end
   end.
 
 Definition c02_run (v : vl) : vl :=
   match v with
-  | VL [cfgs; probes] =>
-    match val_list dec_cfg cfgs, val_list dec_probe probes with
-    | Some (c0 :: cs), Some prs =>
-      VL (map (fun ost => obs_opt ost prs) (init c0 :: states (init c0) cs))
+  | VL [ss; probes] =>
+    match val_list dec_step ss, val_list dec_probe probes with
+    | Some (s0 :: ss'), Some prs =>
+      match init (s_cfg s0) with
+      | Some st0 => VL (observe st0 prs (VL []) :: steps (Some st0) (s_drop s0) ss' prs)
+      | None => VL (VErr 1 :: steps None None ss' prs)
+      end
     | _, _ => VBad
     end
   | _ => VBad
